@@ -156,7 +156,7 @@ func (p *ltParser) undump(v reflect.Value) {
 var ltTexts = []string{
 	"Goodwood", "", "'19 McLaren 720s", `say "hi"`, "a & b", "<tag>", "x > y", "tab\there", "line1\nline2", "cr\rhere", "crlf\r\nend",
 	"&#34; look-alike", "&quot;", "]]>", "é ü ß", "日本語", "😀 astral", " leading and trailing ", "\n\t\tindented\t\t", "%d %s", "a,b",
-	"http://example.com/test?id=1&ext=MP4", "semi;colon", "&amp;amp;", "'", `"`, "&", "<", "\t", "\n",
+	"http://example.com/test?id=1&ext=MP4", "semi;colon", "It’s “quoted” – €5 … ™ Š", "œuvre ž Ÿ", "&amp;amp;", "'", `"`, "&", "<", "\t", "\n",
 }
 
 // text XML cannot carry: control characters, U+FFFE/U+FFFF, a lone U+FFFD
@@ -460,20 +460,31 @@ func ltRoundTrip(toks []string) string {
 			}
 		}
 	}
-	// windows-1252: transcode the document, declare it, decode: same database
+	// windows-1252: transcode the document, declare it, decode: same database.  Characters the
+	// code page cannot carry are first replaced by '?' in the UTF-8 document too, so that every
+	// case exercises the charset reader (the 0x80-0x9F block in particular).
 	cpS := "na"
 	if utf8.Valid(enc) {
-		if cpb, err := charmap.Windows1252.NewEncoder().Bytes(enc); err == nil {
+		var sane []byte
+		for _, r := range string(enc) {
+			if _, ok := charmap.Windows1252.EncodeRune(r); ok {
+				sane = utf8.AppendRune(sane, r)
+			} else {
+				sane = append(sane, '?')
+			}
+		}
+		sdec, serr := ltDecode(sane)
+		if cpb, err := charmap.Windows1252.NewEncoder().Bytes(sane); err == nil {
 			cpb = bytes.Replace(cpb, []byte(`encoding="UTF-8"`), []byte(`encoding="windows-1252"`), 1)
 			cdec, cerr := ltDecode(cpb)
 			switch {
-			case cerr != nil && derr != nil:
+			case cerr != nil && serr != nil:
 				cpS = "same"
 			case cerr != nil:
 				cpS = "err"
-			case derr != nil:
+			case serr != nil:
 				cpS = "differs"
-			case dumpField(ltDumpDB(cdec)) == decS:
+			case dumpField(ltDumpDB(cdec)) == dumpField(ltDumpDB(sdec)):
 				cpS = "same"
 			default:
 				cpS = "differs"
